@@ -259,7 +259,54 @@ def gen(rnd: random.Random, opts: dict) -> Design:
         add_cross_module_conflict_pattern(D, rnd)
     if rnd.random() < opts.get("p_same_trans_conflict", 0.0):
         add_same_transaction_conflict_pattern(D, rnd)
+    if rnd.random() < opts.get("p_excl_order", 0.05):
+        add_exclusive_ordered_pair_pattern(D, rnd)
     return D
+
+
+def add_exclusive_ordered_pair_pattern(D, rnd):
+    """Forced layout class: two transactions that are mutually exclusive by control flow (they call methods defined in the two alternatives of
+    one module-level If/Else), conflict through a shared exclusive method, and are ORDERED by a Forwarder-style ready dependency
+    (writer.ready = bit | reader.run, reader.schedule_before(writer)). The reader has more conflicts than the writer, so only the ordering
+    relation keeps it first; if the order is lost the circuit has a combinational loop reader.run -> writer.ready -> writer.run -> reader.run."""
+    a_idx, b_idx, l_idx = D.nm, D.nm + 1, D.nm + 2
+    D.nm += 3
+    for idx in (a_idx, b_idx, l_idx):
+        D.meth.append(dict(has_in=False, nonex=False, validate=None, combiner=None, single_caller=False))
+        b = B("m", idx)
+        b.pos = ((("body", "m", idx), 0),)
+        D.nbits += 1
+        b.rdy = D.nbits - 1
+        D.bodies[b.key] = b
+        D.order.append(b)
+        D.deford[b.key] = len(D.deford)
+    sid = D.struct
+    D.struct += 1
+    D.nbits += 1
+    cbit = D.nbits - 1
+    for idx, alt in ((a_idx, 0), (b_idx, 1)):
+        D.modwrap[("m", idx)] = (sid, alt, cbit)
+        add_prefix(D.bodies[("m", idx)], ((("if", sid), alt),))
+    first = D.nt + D.tnext
+    D.tnext += 3
+    ts = []
+    for k in range(3):
+        b = B("t", first + k)
+        b.pos = ((("body", "t", first + k), 0),)
+        D.nbits += 1
+        b.rdy = D.nbits - 1
+        D.bodies[b.key] = b
+        D.order.append(b)
+        D.deford[b.key] = len(D.deford)
+        ts.append(b)
+    reader, writer, other = ts
+    reader.stmts += [("call", new_site(D, reader, a_idx)), ("call", new_site(D, reader, l_idx))]
+    writer.stmts += [("call", new_site(D, writer, b_idx)), ("call", new_site(D, writer, l_idx))]
+    writer.rdy_or = reader.key
+    D.sb.append((reader.key, writer.key, False))
+    D.confl.append((reader.key, other.key, Priority.UNDEFINED))
+    D.count_excl_ordered = True
+    return True
 
 
 def add_cross_module_conflict_pattern(D, rnd):
@@ -1522,6 +1569,8 @@ def run_design(rec: Rec, D, A, rnd: random.Random, case: dict, sched: str = "eag
     rec.count("designs_simulated")
     if getattr(D, "count_xmod_shared_call", False):
         rec.count("designs_with_cross_module_mirrored_call_sites")
+    if getattr(D, "count_excl_ordered", False):
+        rec.count("designs_with_exclusive_but_ordered_pair")
     if getattr(D, "relations_via_proxy", 0):
         rec.count("conflicts_declared_on_proxy_methods", D.relations_via_proxy)
     if exhaustive:
